@@ -65,6 +65,10 @@ pub struct Sc {
     /// Start from SummaryStream::default() instead of new().
     #[serde(default)]
     pub from_default: bool,
+    /// The consumer calls flush() after every this-many writes (a BufWriter or
+    /// io::copy wrapper does): flushing must not change what is collected.
+    #[serde(default)]
+    pub flush_every: Option<usize>,
 }
 
 pub struct Rendered {
@@ -446,6 +450,21 @@ impl<'a> Write for Mon<'a> {
                     let c = self.stream.clone();
                     self.stream = c;
                 }
+                if let Some(fl) = self.sc.flush_every {
+                    if fl > 0 && k % fl == 0 {
+                        self.probes.push("flush-between-writes");
+                        let before = self.total();
+                        if let Err(e) = self.stream.flush() {
+                            self.flag("flush-failed", format!("flush() after write #{} failed: {}", k, e));
+                        }
+                        if self.total() != before {
+                            self.flag(
+                                "flush-changed-entries",
+                                format!("flush() after write #{} changed the number of collected entries from {} to {}", k, before, self.total()),
+                            );
+                        }
+                    }
+                }
                 if let Some(d) = self.sc.drain_every {
                     if d > 0 && k % d == 0 {
                         let taken = std::mem::take(self.stream.entries_mut());
@@ -589,6 +608,7 @@ impl Property for C09 {
                 clone_after: None,
                 drain_every: if rng.chance(1, 2) { Some(1) } else { None },
                 from_default: false,
+                flush_every: None,
             };
             let len = render(&sc).bytes.len();
             let lens: Vec<usize> = match rng.below(4) {
@@ -627,6 +647,7 @@ impl Property for C09 {
             clone_after: if rng.chance(1, 5) { Some(rng.urange(1, 6)) } else { None },
             drain_every: if rng.chance(1, 4) { Some(rng.urange(1, 4)) } else { None },
             from_default: rng.chance(1, 4),
+            flush_every: if rng.chance(1, 4) { Some(rng.urange(1, 3)) } else { None },
         };
         let rend = render(&sc);
         match driver {
@@ -924,6 +945,9 @@ impl Property for C09 {
         if sc.from_default {
             push!(Sc { from_default: false, ..sc.clone() });
         }
+        if sc.flush_every.is_some() {
+            push!(Sc { flush_every: None, ..sc.clone() });
+        }
         if sc.driver == Driver::Copy {
             // same partition through direct writes
             let lens: Vec<usize> = sc
@@ -1158,6 +1182,7 @@ impl Property for C09 {
             "single-write-over-64KiB",
             "stream-cloned-mid-delivery",
             "entries-drained-between-writes",
+            "flush-between-writes",
         ]
     }
 }
